@@ -24,23 +24,27 @@ Classes(it, r, e, x) ==
     \cup (IF e /\ \E i \in 1..Len(it.pc.p) : IsParamC(it.pc.p[i]) /\ ~ClassName(it.pc.p[i]) THEN {"odd-param-name-matched"} ELSE {})
     \cup (IF e /\ Len(it.pc.p) > 0 /\ IsWildC(it.pc.p[Len(it.pc.p)]) /\ Len(r.uc.p) = Len(it.pc.p) - 1 THEN {"wildcard-zero-tail"} ELSE {})
     \cup (IF e /\ it.ms = {} /\ r.mc = HEADc THEN {"no-method-filter-HEAD"} ELSE {})
-    \cup (IF e /\ r.ts THEN {"trailing-slash-matched"} ELSE {})
+    \cup (IF e /\ r.var = "ts" THEN {"trailing-slash-matched"} ELSE {})
+    \cup (IF r.var = "uc" /\ EngineModel(it, r.mc, r.uc, "") THEN {"host-case-variant"} ELSE {})
+    \cup (IF e /\ it.split THEN {"two-flows-one-url"} ELSE {})
 
 Group(i) ==
     LET it   == ItemSeq[i]
-        itp  == ItemP(it, "i1")
+        itps == ItemsP(it)
+        its  == SetToSeq(itps)
         reqs == SetToSeq(ReqsOf(it.pc))
-    IN [idx  |-> i,
-        kind |-> it.kind,
-        item |-> [name |-> "i1", m |-> SetToSeq(itp.ms), h |-> Host(itp.p), p |-> Path(itp.p)],
-        reqs |-> [k \in 1..Len(reqs) |-> [m |-> Str(reqs[k].mc), h |-> StrSeq(reqs[k].uc.h),
-                                          p |-> StrSeq(reqs[k].uc.p), ts |-> reqs[k].ts]],
-        exp  |-> [k \in 1..Len(reqs) |->
-                    LET e == EngineModel(it, reqs[k].mc, reqs[k].uc)
-                        x == ProxyModel(it, reqs[k].mc, reqs[k].uc, reqs[k].ts)
+    IN [idx   |-> i,
+        kind  |-> it.kind,
+        split |-> it.split,
+        items |-> [k \in 1..Len(its) |-> [name |-> its[k].name, m |-> SetToSeq(its[k].ms), h |-> Host(its[k].p), p |-> Path(its[k].p)]],
+        reqs  |-> [k \in 1..Len(reqs) |-> [m |-> Str(reqs[k].mc), h |-> StrSeq(reqs[k].uc.h),
+                                           p |-> StrSeq(reqs[k].uc.p), var |-> reqs[k].var]],
+        exp   |-> [k \in 1..Len(reqs) |->
+                    LET e == EngineModel(it, reqs[k].mc, reqs[k].uc, reqs[k].var)
+                        x == ProxyModel(it, reqs[k].mc, reqs[k].uc, reqs[k].var)
                         obs == [engine |-> IF e THEN {"i1"} ELSE {}, proxy |-> x, manageAll |-> FALSE]
-                    IN [engine |-> e, proxy |-> x, v |-> Verdict({itp}, ReqP(reqs[k]), obs),
-                        spells |-> Spells(itp, ReqP(reqs[k])),
+                    IN [engine |-> e, proxy |-> x, v |-> Verdict(itps, ReqP(reqs[k]), obs),
+                        spells |-> \E ip \in itps : Spells(ip, ReqP(reqs[k])),
                         cls |-> SetToSeq(Classes(it, reqs[k], e, x))]]]
 
 Count(g, v) == Cardinality({k \in 1..Len(g.reqs) : g.exp[k].v = v})
